@@ -62,8 +62,17 @@ def code_lines(path):
     out = []
     lines = open(path).read().split("\n")
     in_tests = False
+    in_block = False
     for i, l in enumerate(lines):
         st = l.strip()
+        if in_block:
+            if "*/" in st:
+                in_block = False
+            continue
+        if st.startswith("/*"):
+            if "*/" not in st:
+                in_block = True
+            continue
         if st.startswith("#[cfg(test)]"):
             in_tests = True
         if in_tests:
